@@ -63,3 +63,34 @@ package keeper
 //@   loop 0 invariant #keyed: forall a, p, i :: k.GetOrder(ctx, a, p, i).1 ==> k.GetOrder(ctx, a, p, i).0.AppId == a && k.GetOrder(ctx, a, p, i).0.PairId == p && k.GetOrder(ctx, a, p, i).0.Id == i
 //@   ensures #c07-mm-cancel-covers-every-indexed-order: err == nil && ix.1 ==> forall j :: 0 <= j && j < len(ids) ==> !(k.GetOrder(ctx, appID, pair.Id, ids[j]).1 && live(k.GetOrder(ctx, appID, pair.Id, ids[j]).0))
 //@   ensures #c07-mm-index-removed: err == nil ==> !k.GetMMOrderIndex(ctx, orderer, appID, pair.Id).1
+
+// Farming (C04): farmed pool coins move from the farmer into the liquidity module account and are recorded as one more
+// queued entry of exactly that amount; the coin must be the pool coin of the addressed pool.
+//@ func (k Keeper) Farm
+//@   property C04
+//@   let q0 = k.GetQueuedFarmer(ctx, msg.AppId, msg.PoolId, addr(msg.Farmer))
+//@   let lm = modaddr("liquidityV1")
+//@   let d = msg.FarmingPoolCoin.Denom
+//@   requires #accounts: validaddr(msg.Farmer) ==> addr(msg.Farmer) != lm
+//@   requires #queued-keyed: q0.1 ==> q0.0.AppId == msg.AppId && q0.0.PoolId == msg.PoolId && validaddr(q0.0.Farmer) && addr(q0.0.Farmer) == addr(msg.Farmer)
+//@   letpost q1 = k.GetQueuedFarmer(ctx, msg.AppId, msg.PoolId, addr(msg.Farmer))
+//@   ensures #c04-farm-pool-coin-only: result == nil ==> d == k.GetPool(ctx, msg.AppId, msg.PoolId).0.PoolCoinDenom && msg.FarmingPoolCoin.Amount > 0
+//@   ensures #c04-farm-custody: result == nil ==> bal(lm, d) == old(bal(lm, d)) + msg.FarmingPoolCoin.Amount && bal(addr(msg.Farmer), d) == old(bal(addr(msg.Farmer), d)) - msg.FarmingPoolCoin.Amount
+//@   ensures #c04-farm-recorded: result == nil ==> q1.1 && len(q1.0.QueudCoins) == ite(q0.1, len(q0.0.QueudCoins), 0) + 1
+
+// Unfarming (C04): exactly the requested pool coins leave the module account to the farmer, only in the pool's coin, and
+// only if the farmer's recorded farmed amount (queued entries plus the active entry) covers the request.
+//@ func (k Keeper) Unfarm
+//@   property C04
+//@   let amt = msg.UnfarmingPoolCoin.Amount
+//@   let d = msg.UnfarmingPoolCoin.Denom
+//@   let fa = addr(msg.Farmer)
+//@   let lm = modaddr("liquidityV1")
+//@   let q0 = k.GetQueuedFarmer(ctx, msg.AppId, msg.PoolId, fa)
+//@   let a0 = k.GetActiveFarmer(ctx, msg.AppId, msg.PoolId, fa)
+//@   let farmed = ite(q0.1, sum(q0.0.QueudCoins.FarmedPoolCoin.Amount, 0, len(q0.0.QueudCoins)), 0) + ite(a0.1, a0.0.FarmedPoolCoin.Amount, 0)
+//@   requires #accounts: validaddr(msg.Farmer) ==> fa != lm
+//@   loop 0 invariant #sum: farmedCoinAmount == sum(queuedFarmer.QueudCoins.FarmedPoolCoin.Amount, 0, idx0) && 0 <= idx0 && idx0 <= len(queuedFarmer.QueudCoins)
+//@   ensures #c04-unfarm-pool-coin-only: result == nil ==> d == old(k.GetPool(ctx, msg.AppId, msg.PoolId).0.PoolCoinDenom) && amt > 0
+//@   ensures #c04-unfarm-custody: result == nil ==> bal(lm, d) == old(bal(lm, d)) - amt && bal(fa, d) == old(bal(fa, d)) + amt
+//@   ensures #c04-unfarm-within-farmed: result == nil ==> amt <= farmed
